@@ -248,10 +248,12 @@ class GeckoAsyncSpaMan(ABC, AsyncTasks):
         self._spa_descriptors = None
         if self._facade is not None:
             await self._facade.disconnect()
-            self._facade = None
         if self._spa is not None:
             await self._spa.disconnect()
             self._spa = None
+        # Only drop the facade once the spa has announced its disconnection, so
+        # that the facade teardown event is delivered while the facade exists
+        self._facade = None
         self._spa_state = GeckoSpaState.IDLE
 
     async def async_locate_spas(
